@@ -6,7 +6,7 @@ import glob
 import os
 import random
 
-from common import SPEC, ToolError, batch, scratch_dir, tlc, tlc_ok, write_ndjson
+from common import REPO, SPEC, ToolError, batch, scratch_dir, tlc, tlc_ok, write_ndjson
 import shutil
 
 CHARS = {"sp": " ", "nl": "\n", "cr": "\r", "nbsp": "\u00a0", "a": "a", "us": "_", "d": "1", "minus": "-", "dot": ".",
@@ -155,7 +155,7 @@ def stage_crashes(r):
 
 def corpus():
     """The repository's own Garden sources: test inputs and the prelude."""
-    files = sorted(glob.glob("/repo/src/test_files/**/*.gdn", recursive=True)) + sorted(glob.glob("/repo/src/*.gdn"))
+    files = sorted(glob.glob(REPO + "/src/test_files/**/*.gdn", recursive=True)) + sorted(glob.glob(REPO + "/src/*.gdn"))
     out = []
     for f in files:
         try:
@@ -163,7 +163,7 @@ def corpus():
         except (OSError, UnicodeDecodeError):
             continue
         if len(s) < 3000:
-            out.append((os.path.relpath(f, "/repo"), s))
+            out.append((os.path.relpath(f, REPO), s))
     return out
 
 
